@@ -213,6 +213,8 @@ def r_ordered(prog, tier):
             ctx = _raw_context(n, par, parents)
             if ctx is None:
                 continue
+            if ctx[0] == 'alias':
+                ctx = _alias_uses(f, ctx[1], parents)
             ok = ctx[0]
             why = ctx[1]
             if not ok:
@@ -243,6 +245,30 @@ def r_ordered(prog, tier):
                           construct='raw:' + unparse(par if par is not None else n),
                           line=n.lineno, nontrivial=not ok or 'order' in why))
     return obs, {'ordered_accessor_call_sites': ncalls}
+
+
+def _alias_uses(f, assign, parents):
+    """The stored child list is bound to a local: judge every use of that local."""
+    if len(assign.targets) != 1 or not isinstance(assign.targets[0], ast.Name):
+        return (None, 'the stored child list is bound in a way this rule does not follow')
+    nm = assign.targets[0].id
+    stores = [x for x in walk_own(f.node) if isinstance(x, ast.Name) and x.id == nm and not isinstance(x.ctx, ast.Load)]
+    if len(stores) != 1:
+        return (None, 'the local `%s` holding the stored child list is bound more than once' % nm)
+    worst = (True, 'the local `%s` is only used in order-insensitive ways' % nm)
+    for x in walk_own(f.node):
+        if isinstance(x, ast.Name) and x.id == nm and isinstance(x.ctx, ast.Load):
+            par = parents.get(x)
+            c = _raw_context(x, par, parents)
+            if c is None:
+                continue            # structural event (append/remove/insert), judged by R-LINK
+            if c[0] == 'alias':
+                return (None, 'the stored child list is passed on through another name')
+            if c[0] is False:
+                return (False, 'the stored child list is bound to `%s` and %s' % (nm, c[1]))
+            if c[0] is None:
+                worst = c
+    return worst
 
 
 def _order_sensitive(loop, listtxt, prog=None, f=None):
@@ -298,6 +324,8 @@ def _raw_context(n, par, parents):
             return (True, 'sorted before use')
         if isinstance(fn, ast.Name) and fn.id in ('set', 'frozenset'):
             return (True, 'converted to a set')
+        if isinstance(fn, ast.Name) and fn.id in ('bool', 'any', 'all', 'sum', 'max', 'min'):
+            return (True, '%s() is order-insensitive' % fn.id)
         return (False, 'stored child list passed to %s()' % unparse(fn))
     if isinstance(par, ast.comprehension) and par.iter is n:
         comp = parents.get(par)
@@ -309,10 +337,13 @@ def _raw_context(n, par, parents):
         return (False, 'for-loop iterates the stored child order (and sees removals made in its body)')
     if isinstance(par, ast.Compare):
         return (True, 'membership / comparison is order-insensitive')
+    if isinstance(par, (ast.UnaryOp, ast.BoolOp)) or (isinstance(par, (ast.If, ast.While, ast.IfExp, ast.Assert))
+                                                     and par.test is n):
+        return (True, 'truth value (empty or not) is order-insensitive')
     if isinstance(par, ast.Subscript) and par.value is n:
         return (False, 'indexing the stored child list')
     if isinstance(par, ast.Assign) and par.value is n:
-        return (False, 'the stored child list is bound to a name and used as a sequence')
+        return ('alias', par)
     if isinstance(par, ast.Call) and isinstance(par.func, ast.Name) and par.func.id == 'enumerate':
         return (False, 'enumerate over the stored child order')
     return (False, 'stored child list used as an ordered sequence')
